@@ -719,25 +719,30 @@ PWait ==
 PClrTake ==
     /\ proc.pc = "idle" /\ clearQ > 0
     /\ clearQ' = clearQ - 1
-    /\ proc' = [pc |-> "cleaning"]
+    /\ proc' = [pc |-> "cleaning", left |-> Len(buf)]   \* drops what is buffered NOW and no more (see PCleanEnd)
     /\ NoRes /\ NoCb /\ UNCH_store /\ UNCH_pol /\ UNCH_life /\ UNCH_ghost
     /\ UNCHANGED <<buf, stopQ, wdone, orphans, cli, now, met>>
     /\ UNCH_kf
     /\ UNCHANGED gh
 
 PCleanItem ==
-    /\ proc.pc = "cleaning" /\ buf # <<>>
+    /\ proc.pc = "cleaning" /\ proc.left > 0 /\ buf # <<>>
     /\ LET it == Head(buf) IN
        /\ IF it.t = "new" THEN Fire(<<CB("evict", it.val, it.cost)>>) ELSE NoCb
        /\ wdone' = IF it.t = "wait" THEN wdone \cup {it.w} ELSE wdone
     /\ buf' = Tail(buf)
+    /\ proc' = [proc EXCEPT !.left = @ - 1]
     /\ NoRes /\ UNCH_store /\ UNCH_pol /\ UNCH_life /\ UNCH_ghost
-    /\ UNCHANGED <<clearQ, stopQ, orphans, proc, cli, now, met>>
+    /\ UNCHANGED <<clearQ, stopQ, orphans, cli, now, met>>
     /\ UNCH_kf
     /\ UNCHANGED gh
 
+\* The drain is bounded by the number of items buffered when it started: items that clients send while it runs stay
+\* in the buffer and are applied afterwards (they belong to the time after the clear).  Draining "until the buffer is
+\* found empty" -- what the code did before fix D9 -- never ends while other threads keep inserting, and a close()
+\* waiting for the processor then never returns (liveness property CloseReturnsUnderLoad of MC_Cache_load).
 PCleanEnd ==
-    /\ proc.pc = "cleaning" /\ buf = <<>>
+    /\ proc.pc = "cleaning" /\ (proc.left = 0 \/ buf = <<>>)
     /\ proc' = IdleProc
     /\ NoRes /\ NoCb /\ UNCH_store /\ UNCH_pol /\ UNCH_chan /\ UNCH_life /\ UNCH_ghost
     /\ UNCHANGED <<cli, now, met>>
@@ -846,7 +851,8 @@ Quiescent == /\ buf = <<>> /\ clearQ = 0 /\ proc.pc = "idle"
 
 \* C01
 UsedIsSum == used = SumCosts(costs, Charged)
-Bounded == used <= maxCost + slack
+\* (an empty cache is within every bound: update_max_cost also takes zero and negative values, under which nothing is admitted)
+Bounded == used = 0 \/ used <= maxCost + slack
 \* C06
 NoKF == kf = {}
 Agree == (NoKF /\ Quiescent /\ ~errSeen) => Resident = Charged
